@@ -144,6 +144,16 @@ Theorem C16_current_sparse_row_builders_wf : wf_builders_fx nnz_fix true row_bui
 Proof. exact eq_refl. Qed.
 Print Assumptions C16_current_sparse_row_builders_wf.
 
+(* the repairs (zeroing, NJMAX_NNZ flag, clamp) are launched under `if m.is_sparse:` and no other
+   condition of make_constraint (not inside a disable-flag block), and forward._advance launches
+   _next_time unconditionally: the model's overflow word is computed on every step *)
+Theorem C16_current_nnz_fix_runs_whenever_sparse : nnz_fix_sparse_only = true.
+Proof. exact eq_refl. Qed.
+Print Assumptions C16_current_nnz_fix_runs_whenever_sparse.
+Theorem C16_current_next_time_unconditional : next_time_unconditional = true.
+Proof. exact eq_refl. Qed.
+Print Assumptions C16_current_next_time_unconditional.
+
 (* the probes of forward._next_time / _compact_dofs are the ones the model copies *)
 Theorem C16_current_probes_match_model : probes_eqb overflow_probes expected_probes = true.
 Proof. exact eq_refl. Qed.
